@@ -151,17 +151,22 @@ func randItem(r *vk.Rand) aitem {
 
 // frame is the library's documented framing of one (domain, body) item, used to build "framing pasted as bytes" attacks.
 func frame(domain string, body []byte, withDomLen, withBodyLen bool) []byte {
+	return frameW(domain, body, withDomLen, withBodyLen, 8)
+}
+
+// frameW frames with length fields of w bytes (weakened framings truncate lengths).
+func frameW(domain string, body []byte, withDomLen, withBodyLen bool, w int) []byte {
 	var out []byte
 	var n [8]byte
 	out = append(out, '(')
 	if withDomLen {
 		binary.BigEndian.PutUint64(n[:], uint64(len(domain)))
-		out = append(out, n[:]...)
+		out = append(out, n[8-w:]...)
 	}
 	out = append(out, domain...)
 	if withBodyLen {
 		binary.BigEndian.PutUint64(n[:], uint64(len(body)))
-		out = append(out, n[:]...)
+		out = append(out, n[8-w:]...)
 	}
 	out = append(out, body...)
 	return append(out, ')')
@@ -236,6 +241,14 @@ func c19Pairs(r *vk.Rand) []pair {
 				ps = append(ps, pair{"domain-swallows-length", []aitem{aBWD("a", b1)}, []aitem{aBWD(d2, y)}})
 			}
 		}
+	}
+	// length fields truncated to w bytes: a long item swallows the next item's header
+	for _, w := range []int{1, 2} {
+		ylen := (1 << uint(8*w)) - 2 - 2*w - len("[]byte")
+		yy := r.Bytes(ylen)
+		f2 := frameW("[]byte", yy, true, true, w)
+		pasted := cat(x, []byte(")"), f2[:len(f2)-1])
+		ps = append(ps, pair{fmt.Sprintf("length-truncation(w=%d)", w), []aitem{aBytes(x), aBytes(yy)}, []aitem{aBytes(pasted)}})
 	}
 	// lengths that agree modulo 256
 	long := r.Bytes(256 + 3)
@@ -387,6 +400,12 @@ func c19Commit(t *vk.T, i int) {
 		{"item-removed", c, d, seq[1:], ctx},
 		{"other-context", c, d, seq, hash.New(hash.BytesWithDomain{TheDomain: "ctx", Bytes: r.Bytes(8)})},
 		{"decommitment-as-item", c, d, append(append([]aitem{}, seq...), aDecomm(d)), ctx},
+		// an opening padded with an item the hash refuses, followed by arbitrary values
+		{"unhashable-nil-bytes-added", c, d, append(append([]aitem{}, seq...), aitem{"x", nil, []byte(nil)}, other), ctx},
+		{"unhashable-nil-bigint-added", c, d, append(append([]aitem{}, seq...), aitem{"x", nil, (*big.Int)(nil)}, other), ctx},
+		{"unhashable-type-added", c, d, append(append([]aitem{}, seq...), aitem{"x", nil, 12345}, other), ctx},
+		{"unhashable-nil-commitment-added", c, d, append(append([]aitem{}, seq...), aitem{"x", nil, hash.Commitment(nil)}), ctx},
+		{"unhashable-replaces-tail", c, d, append(append([]aitem{}, seq[:len(seq)-1]...), aitem{"x", nil, []byte(nil)}), ctx},
 	}
 	if len(seq) >= 2 && !bytes.Equal(c19Canon(seq[:2]), c19Canon([]aitem{seq[1], seq[0]})) {
 		perm := append([]aitem{seq[1], seq[0]}, seq[2:]...)
